@@ -375,6 +375,7 @@ def run_history(ctx, ops, relative, stream):
                 return
     finally:
         Instr.root = None
+        Instr.write_plan = None
         os.chdir(cwd)
         shutil.rmtree(parent, ignore_errors=True)
 
@@ -551,6 +552,7 @@ class Baton:
 def run_schedule(ctx, jobs, schedule, stream):
     """jobs: list of ('load', ty, rel) / ('clear', ty); one thread each"""
     install()
+    Instr.write_plan = None          # a fault plan that an earlier scenario never consumed must not fire here
     parent = tempfile.mkdtemp(prefix='verif-c07-sched-')
     abs_dir = os.path.join(parent, 'store')
     os.mkdir(abs_dir)
